@@ -458,18 +458,25 @@ class NestedDictRAMDataStore(datastore.DataStore):
         raise custom_errors.NotFoundError(
             'No such study:', s_resource.name
         ) from e
-      # Store Study-related metadata into the database.
-      vz.metadata_util.merge_study_metadata(
-          study_node.study_proto.study_spec, copy.deepcopy(study_metadata)
-      )
       # Split the trial-related metadata by Trial.
       split_metadata: DefaultDict[str, List[UnitMetadataUpdate]] = (
           collections.defaultdict(list)
       )
       for md in copy.deepcopy(trial_metadata):
         split_metadata[md.trial_id].append(md)
-      # Now, we update one Trial at a time:
+      # Find every Trial first, so that nothing is written if one is missing.
+      trial_protos = []
       for trial_id, md_list in split_metadata.items():
-        t_resource = s_resource.trial_resource(trial_id)
-        trial_proto = study_node.trial_protos[t_resource.trial_id]
+        try:
+          t_resource = s_resource.trial_resource(trial_id)
+          trial_proto = study_node.trial_protos[t_resource.trial_id]
+        except (KeyError, ValueError) as e:
+          raise custom_errors.NotFoundError('No such trial:', trial_id) from e
+        trial_protos.append((trial_proto, md_list))
+      # Store Study-related metadata into the database.
+      vz.metadata_util.merge_study_metadata(
+          study_node.study_proto.study_spec, copy.deepcopy(study_metadata)
+      )
+      # Now, we update one Trial at a time:
+      for trial_proto, md_list in trial_protos:
         vz.metadata_util.merge_trial_metadata(trial_proto, md_list)
